@@ -48,6 +48,16 @@ namespace nop {
 template <typename A, typename B, typename Enabled = void>
 struct IsFungible : std::is_same<std::decay_t<A>, std::decay_t<B>> {};
 
+// Determines whether element types A and B select the same container format.
+// Containers of integral elements use the binary container while containers of
+// any other element type use the array container: two element types are only
+// interchangeable inside a container when both are integral or neither is.
+template <typename A, typename B>
+struct IsSameElementFormat
+    : std::integral_constant<bool,
+                             std::is_integral<std::decay_t<A>>::value ==
+                                 std::is_integral<std::decay_t<B>>::value> {};
+
 // Enable if A and B are fungible.
 template <typename A, typename B, typename Return = void>
 using EnableIfFungible =
@@ -65,7 +75,8 @@ struct IsFungible<ReturnA(ArgsA...), ReturnB(ArgsB...),
 // Compares two std::arrays to see if the element types are fungible.
 template <typename A, typename B, std::size_t Size>
 struct IsFungible<std::array<A, Size>, std::array<B, Size>>
-    : IsFungible<std::decay_t<A>, std::decay_t<B>> {};
+    : And<IsFungible<std::decay_t<A>, std::decay_t<B>>,
+          IsSameElementFormat<A, B>> {};
 
 // Compares two C arrays to see if the element types are fungible. Sizes are
 // explicitly compared to avoid falling back on the base IsFungible type which
@@ -74,12 +85,14 @@ struct IsFungible<std::array<A, Size>, std::array<B, Size>>
 template <typename A, typename B, std::size_t SizeA, std::size_t SizeB>
 struct IsFungible<A[SizeA], B[SizeB]>
     : And<IsFungible<std::decay_t<A>, std::decay_t<B>>,
+          IsSameElementFormat<A, B>,
           std::integral_constant<bool, SizeA == SizeB>> {};
 
 // Compares two std::vectors to see if the element types are fungible.
 template <typename A, typename B, typename AllocatorA, typename AllocatorB>
 struct IsFungible<std::vector<A, AllocatorA>, std::vector<B, AllocatorB>>
-    : IsFungible<std::decay_t<A>, std::decay_t<B>> {};
+    : And<IsFungible<std::decay_t<A>, std::decay_t<B>>,
+          IsSameElementFormat<A, B>> {};
 
 // Compares two std::maps to see if the element types are fungible.
 template <typename KeyA, typename ValueA, typename KeyB, typename ValueB,
@@ -179,26 +192,32 @@ struct IsFungible<
 // fungible.
 template <typename A, typename B, typename Allocator, std::size_t Size>
 struct IsFungible<std::vector<A, Allocator>, std::array<B, Size>>
-    : IsFungible<std::decay_t<A>, std::decay_t<B>> {};
+    : And<IsFungible<std::decay_t<A>, std::decay_t<B>>,
+          IsSameElementFormat<A, B>> {};
 template <typename A, typename B, typename Allocator, std::size_t Size>
 struct IsFungible<std::array<A, Size>, std::vector<B, Allocator>>
-    : IsFungible<std::decay_t<A>, std::decay_t<B>> {};
+    : And<IsFungible<std::decay_t<A>, std::decay_t<B>>,
+          IsSameElementFormat<A, B>> {};
 
 // Compares C array and std::vector to see if the elements types are fungible.
 template <typename A, typename B, typename Allocator, std::size_t Size>
 struct IsFungible<A[Size], std::vector<B, Allocator>>
-    : IsFungible<std::decay_t<A>, std::decay_t<B>> {};
+    : And<IsFungible<std::decay_t<A>, std::decay_t<B>>,
+          IsSameElementFormat<A, B>> {};
 template <typename A, typename B, typename Allocator, std::size_t Size>
 struct IsFungible<std::vector<A, Allocator>, B[Size]>
-    : IsFungible<std::decay_t<A>, std::decay_t<B>> {};
+    : And<IsFungible<std::decay_t<A>, std::decay_t<B>>,
+          IsSameElementFormat<A, B>> {};
 
 // Compares C array and std::array to see if the element types are fungible.
 template <typename A, typename B, std::size_t Size>
 struct IsFungible<A[Size], std::array<B, Size>>
-    : IsFungible<std::decay_t<A>, std::decay_t<B>> {};
+    : And<IsFungible<std::decay_t<A>, std::decay_t<B>>,
+          IsSameElementFormat<A, B>> {};
 template <typename A, typename B, std::size_t Size>
 struct IsFungible<std::array<A, Size>, B[Size]>
-    : IsFungible<std::decay_t<A>, std::decay_t<B>> {};
+    : And<IsFungible<std::decay_t<A>, std::decay_t<B>>,
+          IsSameElementFormat<A, B>> {};
 
 // Compares Result<ErrorEnum, A> and Result<ErrorEnum, B> to see if A and B are
 // fungible. ErrorEnum must be the same between fungible Result types because
